@@ -16,6 +16,10 @@ oracle that is wrong, not the library.
 import math
 from decimal import Decimal, Context, ROUND_FLOOR
 
+class OracleError(Exception):
+    """The two computations of the reference disagree: the oracle is wrong, no verdict may be drawn."""
+
+
 _CTX = Context(prec=1400)      # a double needs at most ~1075 significant decimal digits: everything below is exact
 TIE_ULPS = 4
 
@@ -36,7 +40,7 @@ def round_decimals(x, nd):
     lo = d.quantize(q, rounding=ROUND_FLOOR, context=_CTX)
     if lo == d:                      # x is itself a multiple of 10**-nd (also every |x| >= 2**53 * 10**-nd ... integers)
         if float(lo) != primary:
-            raise AssertionError('oracle self-check: %r is a multiple of 1e-%d but formatter gave %r' % (x, nd, primary))
+            raise OracleError('oracle self-check: %r is a multiple of 1e-%d but formatter gave %r' % (x, nd, primary))
         return primary, None
     hi = _CTX.add(lo, q)
     d_lo = _CTX.subtract(d, lo)      # > 0
@@ -47,11 +51,11 @@ def round_decimals(x, nd):
     if gap <= 2 * slack:
         alt = f_hi if primary == f_lo else f_lo
         if primary not in (f_lo, f_hi):
-            raise AssertionError('oracle self-check: formatter value %r not a neighbour of %r' % (primary, x))
+            raise OracleError('oracle self-check: formatter value %r not a neighbour of %r' % (primary, x))
         return primary, (alt if alt != primary else None)
     nearest = f_lo if d_lo < d_hi else f_hi
     if nearest != primary:
-        raise AssertionError('oracle self-check: nearest multiple of 1e-%d to %r is %r, formatter gave %r'
+        raise OracleError('oracle self-check: nearest multiple of 1e-%d to %r is %r, formatter gave %r'
                              % (nd, x, nearest, primary))
     return primary, None
 
